@@ -1,7 +1,8 @@
-/- Driver entry for property C04: one request payload in, one canonical response line out. -/
-import Molli.Util.Basic
+/- Driver entry for property C04: session replays run on the backend model of C02
+   (ops: cnew, begin, ckeys, cput, end, endfault, probe). -/
+import Molli.Driver.C02
 namespace Molli.Driver.C04
 
-def handle (_payload : String) : String := "err:not-implemented"
+def handle (payload : String) : String := Molli.Driver.C02.handle payload
 
 end Molli.Driver.C04
